@@ -683,5 +683,5 @@ def run(ctx):
 MANIFEST_ENTRY = {
     "technique": "static analysis: abstract evaluation (rules/absint.py) of the key-spelling table (is_possible_plural), of merge_plurals on 17 key-set shapes against the statement (what merges, what stays, what is an error, nothing dropped), of the unused-form diagnostics (incl. that the check does not edit the plural), of the parse-time category selection and of both plural code generators (token text checked arm by arm); syn extraction of the CLDR name tables in parser, macro and run-time crates; MIR return summary of the run-time helper; MIR cache-key provenance of get_plural_rules (shared with C18.R1); the per-locale arm read-back of rules/gentext.py (an arm shared with fallback locales leaves the locale field alone); abstract evaluation of the warning collector (every emitted warning kept); C05.R3 must-pass: no path from a merged Plurals value to its insertion avoids check_forms; parse-time PluralRules::try_new arguments followed back through the MIR to (locale.name parsed as ICU locale, self.rule_type); C05.R6: BakedDataProvider::try_new_plural_rules by MIR return summary",
     "level_text": "Structural: all tables that carry a CLDR category name from the key suffix to the generated match arm are extracted on each run and must be the identity; diagnostics are shown to sit on the right branch; every selector is shown to fall back to `other`. ICU's own category computation is trusted, not run.",
-    "level_note": "Trusted: icu_plurals implements CLDR. D27 repaired upstream (b6e970e). Not decided: the category of a concrete number, decimal operands.",
+    "level_note": "Trusted: icu_plurals implements CLDR. D27 repaired upstream (b6e970e). Not decided: the category of a concrete number, decimal operands. Known and undecided (hunts/C05): u128 / i128 counts above u64::MAX are truncated by icu_plurals 1.5.",
 }
